@@ -69,7 +69,8 @@ def validator_scans_all(fx):
         src = q.unwrap_into_iter(item[1]) if item[0] == 'next' else None
         whole = src is not None and is_param(src, 2) and is_param(at[0], 1)
         L = vb.cfg.loop_of(c.bb)
-        exits_ok = L is not None and all(k in ('exhausted', 'err', 'unreachable') for _, _, k in q.loop_exit_kinds(vb, L))
+        exits_ok = L is not None and all(k in ('exhausted', 'err', 'unreachable') for _, _, k in q.loop_exit_kinds(vb, L)) and \
+            all(vb.cfg.dominates(c.bb, x) for x, _ in L['back_edges'])       # no `continue` bypasses the lookup
         prop = False
         for u in q.calls(vb, 'std::option::Option::ok_or_else'):
             a0 = q.arg_terms(u)[0]
@@ -223,7 +224,9 @@ class Inv:
                 bad = tm['otherwise'] if d[1] == 'Ge' else [s for v, s in tm['targets'] if v == 0][0]
                 L = vb.cfg.loop_of(sw)
                 whole = L is not None and all(k in ('exhausted', 'err', 'unreachable') for _, _, k in q.loop_exit_kinds(vb, L))
-                okv = q.arm_always_err(vb, bad) and whole
+                # the range test is on every iteration's path: no `continue` can bypass it
+                every = L is not None and all(vb.cfg.dominates(sw, x) for x, _ in L['back_edges'])
+                okv = q.arm_always_err(vb, bad) and whole and every
         pr = chain_propagates(fx, rv.name)
         return ok and okv and not pr, ('every tilemap cel passes validate_tile_ids(tile_count of its layer\'s tileset), which rejects id >= tile_count for every tile'
                                        if ok and okv and not pr else 'tile-id validation incomplete (%s %s %s)' % (ok, okv, pr))
